@@ -208,3 +208,37 @@ fn c09_null_catalog_cell_is_an_error_not_a_panic() {
     let r = std::panic::catch_unwind(|| Package::open(Cursor::new(bytes)).map(|_| ()));
     assert!(r.is_ok(), "Package::open panicked on a null catalog cell");
 }
+
+#[test]
+fn c01_string_pool_stream_names_are_not_table_names() {
+    // fix 308bf08
+    let mut p = new_pkg();
+    t1(&mut p);
+    p.insert_rows(Insert::into("T1").row(vec![Value::Int(1), Value::from("a")])).unwrap();
+    for name in ["_StringPool", "_StringData"] {
+        assert!(p.create_table(name, vec![Column::build("K").primary_key().int16()]).is_err());
+        assert!(!p.has_table(name));
+    }
+    let mut p = reopen(p);
+    assert_eq!(rows(&mut p, "T1"), vec![vec![Value::Int(1), Value::from("a")]]);
+}
+
+#[test]
+fn c04_create_table_with_leftover_validation_rows_is_atomic() {
+    // fix e2efc80
+    let mut p = new_pkg();
+    let mut stale = vec![Value::from("New"), Value::from("K"), Value::from("N")];
+    stale.extend(std::iter::repeat(Value::Null).take(7));
+    p.insert_rows(Insert::into("_Validation").row(stale)).unwrap();
+    let before = (rows(&mut p, "_Tables"), rows(&mut p, "_Columns"), rows(&mut p, "_Validation"));
+    let r = p.create_table("New", vec![Column::build("K").primary_key().int16()]);
+    if r.is_err() {
+        assert!(!p.has_table("New"));
+        let after = (rows(&mut p, "_Tables"), rows(&mut p, "_Columns"), rows(&mut p, "_Validation"));
+        assert_eq!(before, after);
+    } else {
+        assert!(p.has_table("New"));
+        let p = reopen(p);
+        assert!(p.has_table("New"));
+    }
+}
